@@ -1,7 +1,6 @@
 package encoder
 
 import (
-	"bytes"
 	"context"
 	"encoding"
 	"encoding/base64"
@@ -12,6 +11,8 @@ import (
 	"strconv"
 	"strings"
 	"sync"
+	"unicode/utf16"
+	"unicode/utf8"
 	"unsafe"
 
 	"github.com/goccy/go-json/internal/errors"
@@ -232,7 +233,118 @@ func (m *Mapslice) Len() int {
 }
 
 func (m *Mapslice) Less(i, j int) bool {
-	return bytes.Compare(m.Items[i].Key, m.Items[j].Key) < 0
+	return mapKeyLess(m.Items[i].Key, m.Items[j].Key)
+}
+
+// mapKeyLess orders two encoded object keys the way encoding/json orders the
+// keys themselves: by the bytes of the strings, not by the bytes of their
+// JSON spelling (an escape sequence starts with a backslash and the closing
+// quote is greater than ' ' and '!', so the spellings order differently).
+func mapKeyLess(a, b []byte) bool {
+	ia, ib := newMapKeyIter(a), newMapKeyIter(b)
+	for {
+		ca, oka := ia.next()
+		cb, okb := ib.next()
+		if !oka || !okb {
+			return !oka && okb
+		}
+		if ca != cb {
+			return ca < cb
+		}
+	}
+}
+
+// mapKeyIter yields the bytes of the string that an encoded key denotes.
+type mapKeyIter struct {
+	b    []byte
+	i    int
+	pend [utf8.UTFMax]byte
+	np   int
+	ip   int
+}
+
+func newMapKeyIter(b []byte) mapKeyIter {
+	i := 0
+	for i < len(b) && b[i] != '"' { // a colour marker may precede the opening quote
+		i++
+	}
+	return mapKeyIter{b: b, i: i + 1}
+}
+
+func (k *mapKeyIter) hex4(at int) (rune, bool) {
+	if at+4 > len(k.b) {
+		return 0, false
+	}
+	var r rune
+	for _, c := range k.b[at : at+4] {
+		switch {
+		case '0' <= c && c <= '9':
+			r = r<<4 | rune(c-'0')
+		case 'a' <= c && c <= 'f':
+			r = r<<4 | rune(c-'a'+10)
+		case 'A' <= c && c <= 'F':
+			r = r<<4 | rune(c-'A'+10)
+		default:
+			return 0, false
+		}
+	}
+	return r, true
+}
+
+func (k *mapKeyIter) next() (byte, bool) {
+	if k.ip < k.np {
+		c := k.pend[k.ip]
+		k.ip++
+		return c, true
+	}
+	if k.i >= len(k.b) {
+		return 0, false
+	}
+	c := k.b[k.i]
+	if c == '"' {
+		return 0, false
+	}
+	if c != '\\' || k.i+1 >= len(k.b) {
+		k.i++
+		return c, true
+	}
+	e := k.b[k.i+1]
+	k.i += 2
+	switch e {
+	case 'b':
+		return '\b', true
+	case 'f':
+		return '\f', true
+	case 'n':
+		return '\n', true
+	case 'r':
+		return '\r', true
+	case 't':
+		return '\t', true
+	case 'u':
+		r, ok := k.hex4(k.i)
+		if !ok {
+			return 'u', true
+		}
+		k.i += 4
+		if utf16.IsSurrogate(r) {
+			if k.i+6 <= len(k.b) && k.b[k.i] == '\\' && k.b[k.i+1] == 'u' {
+				if r2, ok := k.hex4(k.i + 2); ok {
+					if dec := utf16.DecodeRune(r, r2); dec != utf8.RuneError {
+						r = dec
+						k.i += 6
+					}
+				}
+			}
+			if utf16.IsSurrogate(r) {
+				r = utf8.RuneError
+			}
+		}
+		k.np = utf8.EncodeRune(k.pend[:], r)
+		k.ip = 1
+		return k.pend[0], true
+	}
+	return e, true // \" \\ \/
 }
 
 func (m *Mapslice) Swap(i, j int) {
